@@ -298,6 +298,7 @@ Qed.
 
 Section P.
 Variable v : nat -> verdict.
+Variable mk : info -> info.
 
 (* ------------------------------------------------------------------ *)
 (* unfolding the nested fixpoints                                      *)
@@ -547,21 +548,21 @@ Proof. apply copy_f_erase_of. apply Forall_forall. intros t _. apply copy_t_eras
 Definition is_ex (fr : frame) : Prop := match fr with Existing _ _ _ => True | Virtual _ => False end.
 Definition all_ex (stk : list frame) : Prop := Forall is_ex stk.
 
-Lemma mat_all_ex stk : all_ex stk -> forall nx, materialise stk nx = (stk, nx).
+Lemma mat_all_ex stk : all_ex stk -> forall nx, materialise mk stk nx = (stk, nx).
 Proof.
   induction 1 as [|fr stk Hfr _ IH]; intros nx; cbn [materialise]; [reflexivity|].
   rewrite IH. destruct fr; [reflexivity|destruct Hfr].
 Qed.
 
-Lemma mat_is_ex stk nx : all_ex (fst (materialise stk nx)).
+Lemma mat_is_ex stk nx : all_ex (fst (materialise mk stk nx)).
 Proof.
   induction stk as [|fr stk IH]; cbn [materialise]; [constructor|].
   destruct fr; cbn [fst]; constructor; try exact IH; exact Logic.I.
 Qed.
 
 Lemma mat_virtual src stk nx :
-  materialise (Virtual src :: stk) nx =
-  (Existing (snd (materialise stk nx)) (rinfo src) [] :: fst (materialise stk nx), S (snd (materialise stk nx))).
+  materialise mk (Virtual src :: stk) nx =
+  (Existing (snd (materialise mk stk nx)) (mk (rinfo src)) [] :: fst (materialise mk stk nx), S (snd (materialise mk stk nx))).
 Proof. reflexivity. Qed.
 
 Lemma add_top_ex c stk : all_ex stk -> all_ex (add_top c stk).
@@ -584,29 +585,29 @@ Lemma af_go l : forall st,
   (fix go (l : list rt) (st : afst) {struct l} : afst :=
      match l with
      | [] => st
-     | x :: xs => go xs (af_node v x st)
-     end) l st = af_children v l st.
+     | x :: xs => go xs (af_node v mk x st)
+     end) l st = af_children v mk l st.
 Proof. induction l as [|x l IH]; intros st; [reflexivity|]. cbn [af_children]. rewrite IH. reflexivity. Qed.
 
 Lemma af_node_unfold id i ch stk nx s :
-  af_node v (T id i ch) (stk, nx, s) =
+  af_node v mk (T id i ch) (stk, nx, s) =
   if s then (stk, nx, s) else
   let stk1 := Virtual (T id i ch) :: stk in
   match v id with
   | VSkipKeepSelf =>
-      let m := materialise stk1 nx in
-      (pop (add_top (T (snd m) i []) (fst m)), S (snd m), false)
+      let m := materialise mk stk1 nx in
+      (pop (add_top (T (snd m) (mk i) []) (fst m)), S (snd m), false)
   | VStop => (pop stk1, nx, true)
   | VSelect =>
-      let m := materialise stk1 nx in
+      let m := materialise mk stk1 nx in
       let c := copy_f ch (snd m) in
       (pop (add_tops (fst c) (fst m)), snd c, false)
   | VFalse =>
-      let r := af_children v ch (stk1, nx, false) in
+      let r := af_children v mk ch (stk1, nx, false) in
       (pop (fst (fst r)), snd (fst r), snd r)
   | VTrue =>
-      let m := materialise stk1 nx in
-      let r := af_children v ch (add_top (T (snd m) i []) (fst m), S (snd m), false) in
+      let m := materialise mk stk1 nx in
+      let r := af_children v mk ch (add_top (T (snd m) (mk i) []) (fst m), S (snd m), false) in
       (pop (fst (fst r)), snd (fst r), snd r)
   | VSkip => (pop stk1, nx, false)
   end.
@@ -647,21 +648,21 @@ Proof. apply copy_f_ids_of. apply Forall_forall. intros t _. apply copy_t_ids. Q
    innermost of them; the new nodes get the next allocation indices in
    pre-order *)
 Definition af_ok (t : rt) : Prop := forall stk nx s, exists c' nx',
-  af_node v t (stk, nx, s) =
-    (match c' with None => stk | Some c => add_top c (fst (materialise stk nx)) end, nx', snd (F_t v s t))
-  /\ option_map erase c' = option_map (fun x => erase (dbl_t v x)) (fst (F_t v s t))
+  af_node v mk t (stk, nx, s) =
+    (match c' with None => stk | Some c => add_top c (fst (materialise mk stk nx)) end, nx', snd (F_t v s t))
+  /\ option_map erase c' = option_map (fun x => erase (dbl_t v mk x)) (fst (F_t v s t))
   /\ match c' with
      | None => nx' = nx
-     | Some c => ids_t c = seq (snd (materialise stk nx)) (length (ids_t c)) /\
-                 nx' = snd (materialise stk nx) + length (ids_t c)
+     | Some c => ids_t c = seq (snd (materialise mk stk nx)) (length (ids_t c)) /\
+                 nx' = snd (materialise mk stk nx) + length (ids_t c)
      end.
 
 Lemma af_children_ok l : Forall af_ok l -> forall stk nx s, exists cs' nx',
-  af_children v l (stk, nx, s) =
-    (match cs' with [] => stk | _ => add_tops cs' (fst (materialise stk nx)) end, nx', snd (F_f v s l))
-  /\ map erase cs' = map (fun x => erase (dbl_t v x)) (fst (F_f v s l))
-  /\ ids cs' = seq (snd (materialise stk nx)) (length (ids cs'))
-  /\ nx' = match cs' with [] => nx | _ => snd (materialise stk nx) + length (ids cs') end.
+  af_children v mk l (stk, nx, s) =
+    (match cs' with [] => stk | _ => add_tops cs' (fst (materialise mk stk nx)) end, nx', snd (F_f v s l))
+  /\ map erase cs' = map (fun x => erase (dbl_t v mk x)) (fst (F_f v s l))
+  /\ ids cs' = seq (snd (materialise mk stk nx)) (length (ids cs'))
+  /\ nx' = match cs' with [] => nx | _ => snd (materialise mk stk nx) + length (ids cs') end.
 Proof.
   induction 1 as [|x l Hx _ IH]; intros stk nx s.
   - exists [], nx. cbn. auto.
@@ -670,7 +671,7 @@ Proof.
     destruct c' as [c|].
     + destruct (fst (F_t v s x)) as [x0|]; [|discriminate E2]. cbn [option_map] in E2. injection E2 as E2.
       destruct E3 as [E3 E4].
-      set (M := fst (materialise stk nx)) in *. set (k := snd (materialise stk nx)) in *.
+      set (M := fst (materialise mk stk nx)) in *. set (k := snd (materialise mk stk nx)) in *.
       assert (HM : all_ex (add_top c M)) by (apply add_top_ex, mat_is_ex).
       destruct (IH (add_top c M) nx1 (snd (F_t v s x))) as [cs' [nx2 [I1 [I2 [I3 I4]]]]].
       rewrite (mat_all_ex _ HM) in I1, I3, I4. cbn [fst snd] in I1, I3, I4.
@@ -685,7 +686,7 @@ Proof.
 Qed.
 
 Lemma match_add_tops cs S0 nx : all_ex S0 ->
-  match cs with [] => S0 | _ => add_tops cs (fst (materialise S0 nx)) end = add_tops cs S0.
+  match cs with [] => S0 | _ => add_tops cs (fst (materialise mk S0 nx)) end = add_tops cs S0.
 Proof. intros H. rewrite (mat_all_ex _ H). destruct cs; reflexivity. Qed.
 
 Lemma af_node_ok : forall t, af_ok t.
@@ -695,15 +696,15 @@ Proof.
   { exists None, nx. cbn. auto. }
   cbv zeta. rewrite mat_virtual. cbn [fst snd rinfo].
   pose proof (mat_is_ex stk nx) as HM.
-  destruct (materialise stk nx) as [M k] eqn:Em. cbn [fst snd] in *.
+  destruct (materialise mk stk nx) as [M k] eqn:Em. cbn [fst snd] in *.
   destruct (v id) eqn:Ev.
   - (* True *)
     cbn [add_top].
-    assert (H0 : all_ex (Existing k i [T (S k) i []] :: M)) by (constructor; [exact Logic.I|exact HM]).
-    destruct (af_children_ok ch IH (Existing k i [T (S k) i []] :: M) (S (S k)) false) as [cs' [nx' [E1 [E2 [E3 E4]]]]].
+    assert (H0 : all_ex (Existing k (mk i) [T (S k) (mk i) []] :: M)) by (constructor; [exact Logic.I|exact HM]).
+    destruct (af_children_ok ch IH (Existing k (mk i) [T (S k) (mk i) []] :: M) (S (S k)) false) as [cs' [nx' [E1 [E2 [E3 E4]]]]].
     rewrite (mat_all_ex _ H0) in E3, E4. cbn [snd] in E3, E4.
     rewrite E1. cbn [fst snd]. rewrite (match_add_tops _ _ _ H0), add_tops_ex. cbn [pop].
-    exists (Some (T k i (T (S k) i [] :: cs'))), nx'. refine (conj _ (conj _ (conj _ _))).
+    exists (Some (T k (mk i) (T (S k) (mk i) [] :: cs'))), nx'. refine (conj _ (conj _ (conj _ _))).
     + rewrite rev_app_distr, rev_involutive. reflexivity.
     + cbn [option_map erase dbl_t map]. rewrite Ev. cbn [erase map]. rewrite E2, map_map. reflexivity.
     + rewrite ids_t_unfold. cbn [rid rch]. rewrite ids_cons'. rewrite ids_t_unfold. cbn [rid rch].
@@ -717,7 +718,7 @@ Proof.
     + exists None, nx'. cbn [pop].
       destruct (fst (F_f v false ch)); [|discriminate E2]. cbn. auto.
     + rewrite mat_virtual, Em. cbn [fst snd rinfo]. rewrite add_tops_ex. cbn [pop].
-      exists (Some (T k i (c :: cs'))), nx'.
+      exists (Some (T k (mk i) (c :: cs'))), nx'.
       destruct (fst (F_f v false ch)) as [|y ys] eqn:Ek; [discriminate E2|]. cbn [is_nil fst].
       refine (conj _ (conj _ (conj _ _))).
       * rewrite app_nil_r, rev_involutive. reflexivity.
@@ -728,13 +729,13 @@ Proof.
     exists None, nx. cbn. auto.
   - (* SkipBranch(and_self=False) *)
     cbn [add_top pop rev].
-    exists (Some (T k i [T (S k) i []])), (S (S k)). refine (conj eq_refl (conj _ (conj _ _))).
+    exists (Some (T k (mk i) [T (S k) (mk i) []])), (S (S k)). refine (conj eq_refl (conj _ (conj _ _))).
     + cbn [option_map erase dbl_t map fst]. rewrite Ev. reflexivity.
     + reflexivity.
     + cbn. lia.
   - (* SelectBranch *)
     rewrite add_tops_ex. cbn [pop]. destruct (copy_f_ids ch (S k)) as [C1 C2].
-    exists (Some (T k i (fst (copy_f ch (S k))))), (snd (copy_f ch (S k))). refine (conj _ (conj _ (conj _ _))).
+    exists (Some (T k (mk i) (fst (copy_f ch (S k))))), (snd (copy_f ch (S k))). refine (conj _ (conj _ (conj _ _))).
     + rewrite app_nil_r, rev_involutive. reflexivity.
     + cbn [option_map erase dbl_t fst]. rewrite Ev. cbn [erase]. rewrite copy_f_erase. reflexivity.
     + rewrite ids_t_unfold. cbn [rid rch length seq]. rewrite C1, seq_length. reflexivity.
@@ -743,7 +744,7 @@ Proof.
     exists None, nx. cbn. auto.
 Qed.
 
-Theorem add_filtered_is_dbl_F f nx : same_modulo_ids (fst (add_filtered v f nx)) (dbl v (F v f)).
+Theorem add_filtered_is_dbl_F f nx : same_modulo_ids (fst (add_filtered v mk f nx)) (dbl v mk (F v f)).
 Proof.
   unfold same_modulo_ids, add_filtered, dbl, F.
   assert (H : Forall af_ok f) by (apply Forall_forall; intros t _; apply af_node_ok).
@@ -757,8 +758,8 @@ Qed.
 (* the nodes of the copy are new: consecutive allocation indices in pre-order,
    hence every node of the copy exactly once *)
 Theorem add_filtered_ids f nx :
-  ids (fst (add_filtered v f nx)) = seq nx (length (ids (fst (add_filtered v f nx)))) /\
-  snd (add_filtered v f nx) = nx + length (ids (fst (add_filtered v f nx))).
+  ids (fst (add_filtered v mk f nx)) = seq nx (length (ids (fst (add_filtered v mk f nx)))) /\
+  snd (add_filtered v mk f nx) = nx + length (ids (fst (add_filtered v mk f nx))).
 Proof.
   unfold add_filtered.
   assert (H : Forall af_ok f) by (apply Forall_forall; intros t _; apply af_node_ok).
@@ -771,17 +772,17 @@ Proof.
   rewrite E4. destruct cs'; [cbn; lia|reflexivity].
 Qed.
 
-Theorem filtered_fresh f : NoDup (ids (filtered v f)) /\ ids (filtered v f) = seq 1 (length (ids (filtered v f))).
+Theorem filtered_fresh f : NoDup (ids (filtered v mk f)) /\ ids (filtered v mk f) = seq 1 (length (ids (filtered v mk f))).
 Proof.
   unfold filtered. destruct (add_filtered_ids f 1) as [E _]. split; [|exact E].
   rewrite E. apply seq_NoDup.
 Qed.
 
-Theorem filtered_is_dbl_F f : same_modulo_ids (filtered v f) (dbl v (F v f)).
+Theorem filtered_is_dbl_F f : same_modulo_ids (filtered v mk f) (dbl v mk (F v f)).
 Proof. apply add_filtered_is_dbl_F. Qed.
 
 (* the stop flag of the copying scan is F's *)
-Lemma af_children_stop f stk nx s : snd (af_children v f (stk, nx, s)) = snd (F_f v s f).
+Lemma af_children_stop f stk nx s : snd (af_children v mk f (stk, nx, s)) = snd (F_f v s f).
 Proof.
   assert (H : Forall af_ok f) by (apply Forall_forall; intros t _; apply af_node_ok).
   destruct (af_children_ok f H stk nx s) as [cs' [nx' [E1 _]]]. rewrite E1. reflexivity.
@@ -1061,34 +1062,10 @@ Proof.
 Qed.
 
 (* in place = copying, modulo the D24 leaves *)
-Theorem inplace_vs_copy f : NoDup (ids f) -> same_modulo_ids (filtered v f) (dbl v (filter_inplace v f)).
+Theorem inplace_vs_copy f : NoDup (ids f) -> same_modulo_ids (filtered v mk f) (dbl v mk (filter_inplace v f)).
 Proof. intros ND. rewrite (filter_inplace_is_F f ND). apply filtered_is_dbl_F. Qed.
 
-(* outside the D24 region the copying form is F itself *)
-Lemma dbl_f_id_of l : Forall (fun t => (forall n, In n (ids_t t) -> v n <> VTrue /\ v n <> VSkipKeepSelf) -> dbl_t v t = t) l ->
-  (forall n, In n (ids l) -> v n <> VTrue /\ v n <> VSkipKeepSelf) -> map (dbl_t v) l = l.
-Proof.
-  induction 1 as [|x l Hx _ IH]; intros H; [reflexivity|]. cbn [map].
-  rewrite Hx, IH; [reflexivity| |]; intros n Hn; apply H; rewrite ids_cons'; apply in_or_app; [right|left]; exact Hn.
-Qed.
 
-Lemma dbl_t_id : forall t, (forall n, In n (ids_t t) -> v n <> VTrue /\ v n <> VSkipKeepSelf) -> dbl_t v t = t.
-Proof.
-  induction t as [id i ch IH] using rt_ind'. intros H. cbn [dbl_t].
-  assert (Hid : v id <> VTrue /\ v id <> VSkipKeepSelf) by (apply H; rewrite ids_t_unfold; left; reflexivity).
-  assert (Hch : map (dbl_t v) ch = ch).
-  { apply (dbl_f_id_of ch IH). intros n Hn. apply H. rewrite ids_t_unfold. right. exact Hn. }
-  destruct Hid as [H1 H2]. destruct (v id); try reflexivity; try congruence; rewrite Hch; reflexivity.
-Qed.
-
-Theorem filtered_is_F_outside_D24 f :
-  (forall n, In n (ids f) -> v n <> VTrue /\ v n <> VSkipKeepSelf) -> same_modulo_ids (filtered v f) (F v f).
-Proof.
-  intros H. pose proof (filtered_is_dbl_F f) as E. unfold dbl in E.
-  rewrite (dbl_f_id_of (F v f)) in E; [exact E| |].
-  - apply Forall_forall. intros t _. apply dbl_t_id.
-  - intros n Hn. apply H. eapply sublist_in; [apply F_order|exact Hn].
-Qed.
 
 (* ------------------------------------------------------------------ *)
 (* [reach] and [visited], declaratively                                 *)
@@ -1477,7 +1454,7 @@ Lemma scan_f f : scan_calls_f v after false f = calls v f.
 Proof. unfold calls. rewrite (scan_f_of f); [reflexivity|]. apply Forall_forall. intros t _. apply scan_t. Qed.
 End Scan.
 
-Lemma af_node_stop t stk nx s : snd (af_node v t (stk, nx, s)) = snd (F_t v s t).
+Lemma af_node_stop t stk nx s : snd (af_node v mk t (stk, nx, s)) = snd (F_t v s t).
 Proof. destruct (af_node_ok t stk nx s) as [c' [nx' [E _]]]. rewrite E. reflexivity. Qed.
 
 Lemma ip_children_cons s x xs :
@@ -1510,7 +1487,7 @@ Qed.
 Theorem ip_calls_spec f : ip_calls v f = calls v f.
 Proof. apply scan_f. intros s x. apply ip_node_stop. Qed.
 
-Theorem af_calls_spec f : af_calls v f = calls v f.
+Theorem af_calls_spec f : af_calls v mk f = calls v f.
 Proof. apply scan_f. intros s x. apply af_node_stop. Qed.
 
 (* Node.filter on a branch: the children of the start node are filtered as a forest *)
@@ -1542,15 +1519,45 @@ Qed.
 
 (* Node.filtered / Node.copy(predicate=): the start node on top of the filtered copy of its children *)
 Theorem branch_copy t :
-  same_modulo_ids [T 1 (rinfo t) (fst (add_filtered v (rch t) 2))] [T (rid t) (rinfo t) (dbl v (F v (rch t)))].
+  same_modulo_ids [T 1 (mk (rinfo t)) (fst (add_filtered v mk (rch t) 2))] [T (rid t) (mk (rinfo t)) (dbl v mk (F v (rch t)))].
 Proof.
   unfold same_modulo_ids. cbn [map erase]. rewrite (add_filtered_is_dbl_F (rch t) 2). reflexivity.
 Qed.
 
-Theorem calls_spec f : af_calls v f = calls v f /\ ip_calls v f = calls v f.
+Theorem calls_spec f : af_calls v mk f = calls v f /\ ip_calls v f = calls v f.
 Proof. exact (conj (af_calls_spec f) (ip_calls_spec f)). Qed.
 
 End P.
+
+Section Plain.
+Variable v : nat -> verdict.
+(* outside the D24 region the copying form is F itself *)
+Lemma dbl_f_id_of l : Forall (fun t => (forall n, In n (ids_t t) -> v n <> VTrue /\ v n <> VSkipKeepSelf) -> dbl_t v (fun i => i) t = t) l ->
+  (forall n, In n (ids l) -> v n <> VTrue /\ v n <> VSkipKeepSelf) -> map (dbl_t v (fun i => i)) l = l.
+Proof.
+  induction 1 as [|x l Hx _ IH]; intros H; [reflexivity|]. cbn [map].
+  rewrite Hx, IH; [reflexivity| |]; intros n Hn; apply H; rewrite ids_cons'; apply in_or_app; [right|left]; exact Hn.
+Qed.
+
+Lemma dbl_t_id : forall t, (forall n, In n (ids_t t) -> v n <> VTrue /\ v n <> VSkipKeepSelf) -> dbl_t v (fun i => i) t = t.
+Proof.
+  induction t as [id i ch IH] using rt_ind'. intros H. cbn [dbl_t].
+  assert (Hid : v id <> VTrue /\ v id <> VSkipKeepSelf) by (apply H; rewrite ids_t_unfold; left; reflexivity).
+  assert (Hch : map (dbl_t v (fun i => i)) ch = ch).
+  { apply (dbl_f_id_of ch IH). intros n Hn. apply H. rewrite ids_t_unfold. right. exact Hn. }
+  destruct Hid as [H1 H2]. destruct (v id); try reflexivity; try congruence; rewrite Hch; reflexivity.
+Qed.
+
+Theorem filtered_is_F_outside_D24 f :
+  (forall n, In n (ids f) -> v n <> VTrue /\ v n <> VSkipKeepSelf) -> same_modulo_ids (filtered v (fun i => i) f) (F v f).
+Proof.
+  intros H. pose proof (filtered_is_dbl_F v (fun i => i) f) as E. unfold dbl in E.
+  rewrite (dbl_f_id_of (F v f)) in E; [exact E| |].
+  - apply Forall_forall. intros t _. apply dbl_t_id.
+  - intros n Hn. apply H. eapply sublist_in; [apply (F_order v)|exact Hn].
+Qed.
+End Plain.
+
 
 (* ------------------------------------------------------------------ *)
 (* only the answers on the nodes of the forest matter                   *)
@@ -1576,23 +1583,23 @@ Proof.
   apply Forall_forall. intros t _. apply F_t_ext.
 Qed.
 
-Lemma dbl_f_ext_of v w l :
-  Forall (fun t => (forall n, In n (ids_t t) -> v n = w n) -> dbl_t v t = dbl_t w t) l ->
-  (forall n, In n (ids l) -> v n = w n) -> map (dbl_t v) l = map (dbl_t w) l.
+Lemma dbl_f_ext_of v w mk l :
+  Forall (fun t => (forall n, In n (ids_t t) -> v n = w n) -> dbl_t v mk t = dbl_t w mk t) l ->
+  (forall n, In n (ids l) -> v n = w n) -> map (dbl_t v mk) l = map (dbl_t w mk) l.
 Proof.
   induction 1 as [|x l Hx _ IH]; intros H; [reflexivity|]. cbn [map].
   rewrite Hx, IH; [reflexivity| |]; intros n Hn; apply H; rewrite ids_cons'; apply in_or_app; [right|left]; exact Hn.
 Qed.
 
-Lemma dbl_t_ext v w : forall t, (forall n, In n (ids_t t) -> v n = w n) -> dbl_t v t = dbl_t w t.
+Lemma dbl_t_ext v w mk : forall t, (forall n, In n (ids_t t) -> v n = w n) -> dbl_t v mk t = dbl_t w mk t.
 Proof.
   induction t as [id i ch IH] using rt_ind'. intros H. cbn [dbl_t].
   rewrite <- (H id) by (rewrite ids_t_unfold; left; reflexivity).
-  rewrite (dbl_f_ext_of v w ch IH); [reflexivity|].
+  rewrite (dbl_f_ext_of v w mk ch IH); [reflexivity|].
   intros n Hn. apply H. rewrite ids_t_unfold. right. exact Hn.
 Qed.
 
-Lemma dbl_ext v w f : (forall n, In n (ids f) -> v n = w n) -> dbl v f = dbl w f.
+Lemma dbl_ext v w mk f : (forall n, In n (ids f) -> v n = w n) -> dbl v mk f = dbl w mk f.
 Proof.
   intros H. apply dbl_f_ext_of; [|exact H]. apply Forall_forall. intros t _. apply dbl_t_ext.
 Qed.
@@ -1602,9 +1609,9 @@ Qed.
    form through _add_filtered's chain; both give the same sub-forest (modulo
    the D24 leaves), and two predicates that differ only in returning or
    raising a signal cannot be told apart *)
-Theorem inplace_vs_copy_raw (p : nat -> raw) f : NoDup (ids f) ->
-  same_modulo_ids (filtered (fun n => classify_cp (call_predicate (p n))) f)
-                  (dbl (fun n => classify_cp (call_predicate (p n))) (filter_inplace (fun n => classify_ip (call_predicate (p n))) f)).
+Theorem inplace_vs_copy_raw (p : nat -> raw) mk f : NoDup (ids f) ->
+  same_modulo_ids (filtered (fun n => classify_cp (call_predicate (p n))) mk f)
+                  (dbl (fun n => classify_cp (call_predicate (p n))) mk (filter_inplace (fun n => classify_ip (call_predicate (p n))) f)).
 Proof.
   intros ND. rewrite (filter_inplace_is_F _ f ND).
   rewrite (F_ext (fun n => classify_ip (call_predicate (p n))) (fun n => classify_cp (call_predicate (p n))) f).
@@ -1612,24 +1619,24 @@ Proof.
   - intros n _. apply classify_same.
 Qed.
 
-Theorem raw_predicates_equal (p q : nat -> raw) f : NoDup (ids f) ->
+Theorem raw_predicates_equal (p q : nat -> raw) mk f : NoDup (ids f) ->
   (forall n, In n (ids f) -> call_predicate (p n) = call_predicate (q n)) ->
   filter_inplace (fun n => classify_ip (call_predicate (p n))) f = filter_inplace (fun n => classify_ip (call_predicate (q n))) f /\
-  same_modulo_ids (filtered (fun n => classify_cp (call_predicate (p n))) f) (filtered (fun n => classify_cp (call_predicate (q n))) f).
+  same_modulo_ids (filtered (fun n => classify_cp (call_predicate (p n))) mk f) (filtered (fun n => classify_cp (call_predicate (q n))) mk f).
 Proof.
   intros ND H. split.
   - rewrite !(filter_inplace_is_F _ f ND). apply F_ext. intros n Hn. rewrite (H n Hn). reflexivity.
-  - unfold same_modulo_ids. rewrite (filtered_is_dbl_F _ f), (filtered_is_dbl_F (fun n => classify_cp (call_predicate (q n))) f).
+  - unfold same_modulo_ids. rewrite (filtered_is_dbl_F _ mk f), (filtered_is_dbl_F (fun n => classify_cp (call_predicate (q n))) mk f).
     assert (E : forall n, In n (ids f) -> classify_cp (call_predicate (p n)) = classify_cp (call_predicate (q n)))
       by (intros n Hn; rewrite (H n Hn); reflexivity).
-    rewrite (F_ext _ _ f E). rewrite (dbl_ext _ _ _ (fun n Hn => E n (sublist_in _ _ n (F_order _ f) Hn))). reflexivity.
+    rewrite (F_ext _ _ f E). rewrite (dbl_ext _ _ mk _ (fun n Hn => E n (sublist_in _ _ n (F_order _ f) Hn))). reflexivity.
 Qed.
 
 (* ------------------------------------------------------------------ *)
 (* the entry points with an optional predicate                           *)
-Theorem api_without_predicate f nx :
-  api_filter None f = EValue /\ api_filtered None f nx = EValue /\
-  api_copy None f nx = copy_result (fst (copy_f f nx)) /\
+Theorem api_without_predicate mk f nx :
+  api_filter None f = EValue /\ api_filtered mk None f nx = EValue /\
+  api_copy mk None f nx = copy_result (fst (copy_f f nx)) /\
   same_modulo_ids (fst (copy_f f nx)) f /\
   ids (fst (copy_f f nx)) = seq nx (length (ids f)).
 Proof.
@@ -1638,13 +1645,13 @@ Proof.
   - apply copy_f_ids.
 Qed.
 
-Theorem api_with_predicate v f nx : NoDup (ids f) ->
+Theorem api_with_predicate v mk f nx : NoDup (ids f) ->
   api_filter (Some v) f = Ok (F v f) /\
-  api_filtered (Some v) f nx = copy_result (fst (add_filtered v f nx)) /\
-  api_copy (Some v) f nx = copy_result (fst (add_filtered v f nx)) /\
-  same_modulo_ids (fst (add_filtered v f nx)) (dbl v (F v f)).
+  api_filtered mk (Some v) f nx = copy_result (fst (add_filtered v mk f nx)) /\
+  api_copy mk (Some v) f nx = copy_result (fst (add_filtered v mk f nx)) /\
+  same_modulo_ids (fst (add_filtered v mk f nx)) (dbl v mk (F v f)).
 Proof.
-  intros ND. refine (conj _ (conj eq_refl (conj eq_refl (add_filtered_is_dbl_F v f nx)))).
+  intros ND. refine (conj _ (conj eq_refl (conj eq_refl (add_filtered_is_dbl_F v mk f nx)))).
   unfold api_filter. rewrite (filter_inplace_is_F v f ND). reflexivity.
 Qed.
 
